@@ -893,8 +893,10 @@ static void runClientCase(Rng &rng, Gen &g, long long n)
         corr(capsOp(other), ver.toStdString() + "|" + obs);
     }
     std::vector<std::pair<std::string, std::string>> pendingQueries;
-    // ---- history on the same client.  The client keeps a STORED presence; setClientPresence / connectToServer recompute its caps,
-    //      the other emission sites (session start incl. automatic reconnection, MUC join, disconnectFromServer) send the stored copy.
+    // ---- history on the same client.  The client keeps a STORED presence; its caps are recomputed by setClientPresence / connectToServer
+    //      and (since repo commit 032336b) at every site that sends or hands out the stored copy: session start incl. automatic
+    //      reconnection, MUC join (clientPresence()), disconnectFromServer.  The stale-caps witnesses of the former findings
+    //      C20:stale-ver:* are cases 0 and 1 and must pass now.
     //      After EVERY emitted presence its <c node ver> is compared with the independently computed XEP-0115 hash of what the client
     //      answers to disco#info at that moment.
     corr("config " + hexOf(disco->clientCapabilitiesNode()) + " " + cfgTail(), "ok");
@@ -1021,6 +1023,17 @@ static void runClientCase(Rng &rng, Gen &g, long long n)
             room->join();
             history += "; QXmppMucRoom::join";
             corr("emit muc", judge(lastPresence(), "muc-join", false)); flushQueries();
+            // presences built from scratch (MUC leave, roster subscription management): no caps element, nothing advertised
+            c.sent.clear();
+            room->leave(QL("bye"));
+            if (auto *roster = c.findExtension<QXmppRosterManager>()) { roster->subscribe(QL("friend@example.org")); roster->unsubscribe(QL("friend@example.org")); roster->acceptSubscription(QL("friend@example.org")); }
+            QCoreApplication::processEvents();
+            for (auto &x : c.sent) if (x.startsWith(QL("<presence"))) {
+                bool hasCaps = false;
+                auto pd = domOf(x); for (auto e = pd.firstChildElement(QL("c")); !e.isNull(); e = e.nextSiblingElement(QL("c"))) if (e.namespaceURI() == QL("http://jabber.org/protocol/caps")) hasCaps = true;
+                stat("scratch_built_presences");
+                if (hasCaps) oracleFail("C20:advertised-ne-answered:unexpected-site", "presence built from scratch carries caps: " + x.toStdString()); else oraclePass()++;
+            }
         }
         // publish again: setClientPresence / connectToServer, with a fresh presence or one derived from clientPresence()
         int how = n < 2 ? (k + int(n)) % 4 : int(rng.below(4));
